@@ -50,8 +50,19 @@ func (pass *DisjunctionOfConstantsToEnum) processDisjunction(_ *Visitor, _ *ast.
 	}
 
 	var identifiedMembers []ast.EnumValue
+	// references being resolved: a disjunction can refer to itself
+	resolving := map[ast.RefType]struct{}{}
+
 	var resolvesToConcreteScalarsOnly func(typeDef ast.Type) bool
 	resolvesToConcreteScalarsOnly = func(typeDef ast.Type) bool {
+		if typeDef.IsRef() {
+			if _, cyclic := resolving[typeDef.AsRef()]; cyclic {
+				return false
+			}
+			resolving[typeDef.AsRef()] = struct{}{}
+			defer delete(resolving, typeDef.AsRef())
+		}
+
 		resolved := pass.schemas.ResolveToType(typeDef)
 
 		if resolved.IsConcreteScalar() {
